@@ -79,7 +79,7 @@ impl Write for RecW {
 /// Minimal pass-through writer into a fixed buffer (no logging): used by the
 /// large value sweeps of C04.
 pub struct BufW {
-    pub buf: Box<[u8; 8192]>,
+    pub buf: Vec<u8>,
     pub len: usize,
     pub flushes: usize,
     pub failed: bool,
@@ -87,7 +87,7 @@ pub struct BufW {
 
 impl BufW {
     pub fn new() -> BufW {
-        BufW { buf: Box::new([0; 8192]), len: 0, flushes: 0, failed: false }
+        BufW { buf: vec![0; 8192], len: 0, flushes: 0, failed: false }
     }
     pub fn clear(&mut self) {
         self.len = 0;
@@ -99,8 +99,8 @@ impl BufW {
     }
     fn put(&mut self, b: &[u8]) -> Result<(), Error> {
         if self.len + b.len() > self.buf.len() {
-            self.failed = true;
-            return Err(Error::TooMuchData);
+            // grows for the few very large blocks of C04 (a pass-through writer "has room")
+            self.buf.resize((self.len + b.len()).next_power_of_two(), 0);
         }
         self.buf[self.len..self.len + b.len()].copy_from_slice(b);
         self.len += b.len();
